@@ -201,10 +201,36 @@ fn explore() {
     println!("{}", json!({"states": g.states, "edges": edges, "truncated": g.states >= max_states}));
 }
 
+/// node path --requests FILE: apply a request sequence to a fresh node, print every reply (replays, probing)
+fn path() {
+    let reqs: Vec<Value> = serde_json::from_str(&std::fs::read_to_string(arg("requests").unwrap()).unwrap()).unwrap();
+    let mut fx = NodeFx::new(Network::Regtest, None);
+    for r in reqs {
+        let before = observe(&fx);
+        let resp = if r["op"] == "Restart" {
+            match fx.restart_copy() {
+                Ok(f2) => {
+                    fx = f2;
+                    json!({"ok": true})
+                }
+                Err(e) => json!({"ok": false, "err": e}),
+            }
+        } else {
+            apply(&fx, &r)
+        };
+        let after = observe(&fx);
+        let mut changed = vec![];
+        json_diff(&before.full, &after.full, "", 5, &mut changed);
+        println!("{}", json!({"req": r, "resp": resp, "post": project(&fx), "changed": changed,
+                              "store_changed": before.store_exact != after.store_exact}));
+    }
+}
+
 fn main() {
     quiet_panics();
     match std::env::args().nth(1).unwrap_or_default().as_str() {
         "explore" => explore(),
+        "path" => path(),
         _ => {
             eprintln!("usage: node explore ...");
             std::process::exit(2);
